@@ -208,7 +208,7 @@ def coq_multi(tag, imports, defs, blocks, timeout=900):
     return res
 
 
-FC_CHECKS = ["fc_agree", "fc_modelled", "fc_in_guard", "fc_oracle", "fc_theorem", "fc_oracle_raw"]
+FC_CHECKS = ["fc_agree", "fc_modelled", "fc_in_guard", "fc_oracle", "fc_theorem", "fc_oracle_raw", "fc_in_theorem_guard"]
 
 
 def evaluate(ck, models, res, tag="c03b"):
@@ -393,6 +393,7 @@ def run(ck: Check):
     ck.cov["rule"] = "distinct implementation event lists with more than 2 events"
     ck.cov["builder_models_compared"] = n_bld
     ck.cov["spec_oracle_cases_inside_guard"] = len(in_guard)
+    ck.cov["cases_inside_theorem_guard"] = len([x for x in gen_cases if x not in set(v["fc_in_theorem_guard"])])
     ck.cov["hostile_cases"] = sum(1 for mi, ci in gen_cases if models[mi]["cases"][ci].get("hostile"))
     ck.cov["model_answered_unmodelled"] = len(v["fc_modelled"])
     ck.cov["oracle_differs_outside_guard"] = len([x for x in raw_bad if x in out_guard and not is_wit(x[0])])
